@@ -109,6 +109,7 @@ var verifC02Downstream = []struct{ prefix, suffix, root string }{
 	// the peering table index regressed: the peering queries report it, the re-persisted index record and the
 	// snapshot header (max over all table indexes) differ
 	{"C02/query=PeeringList", "/field=index", "C02/table=index/key=peering"},
+	{"C02/query=ExportedServicesForAllPeersByName", "/field=index", "C02/table=index/key=peering"},
 	{"C02/re-persist-differs/type=16", "", "C02/table=index/key=peering"},
 	{"C02/re-persist-differs/type=header", "", "C02/table=index/key=peering"},
 	{"C02/query=PeeringTrustBundleList", "/field=index", "C02/table=index/key=peering-trust-bundles"},
